@@ -35,7 +35,10 @@ func initCases(thorough bool) []initCase {
 	for bi, n := range initBig {
 		if thorough {
 			for cfg := 0; cfg < 12; cfg++ {
-				for _, content := range initContents {
+				for ci, content := range initContents {
+					if ci > 0 && (cfg+ci+bi)%2 == 0 {
+						continue // unsorted contents for every configuration, the others for half
+					}
 					out = append(out, initCase{[]int{n}, whats[cfg%2], cfg / 2, content})
 				}
 			}
